@@ -159,7 +159,7 @@ func (b *vhRecordingBalancer) Balance(msg Message, partitions ...int) int {
 	return p
 }
 
-func VH_C01_WriteMessages(n, P, batchSize, balancerKind int) {
+func VH_C01_WriteMessages(n, P, batchSize, balancerKind, batchBytes int) {
 	vhConcreteClock(true)
 	tr := &vhTransport{partitions: P}
 	comp := &vhCompletion{}
@@ -168,7 +168,7 @@ func VH_C01_WriteMessages(n, P, batchSize, balancerKind int) {
 		inner = &Hash{}
 	}
 	rec := &vhRecordingBalancer{inner: inner}
-	w := &Writer{Addr: TCP("vh:9092"), Topic: "t", MaxAttempts: 2, BatchSize: batchSize, Transport: tr, Completion: comp.fn, RequiredAcks: RequireAll, Balancer: rec}
+	w := &Writer{Addr: TCP("vh:9092"), Topic: "t", MaxAttempts: 2, BatchSize: batchSize, BatchBytes: int64(batchBytes), Transport: tr, Completion: comp.fn, RequiredAcks: RequireAll, Balancer: rec}
 	msgs := make([]Message, n)
 	for i := range msgs {
 		msgs[i] = Message{Key: vhBytes("key", 1), Value: []byte{byte(i + 1)}}
